@@ -556,7 +556,11 @@ theorem c10_validators_reject_exactly (env : Env) (c : Str) :
 
 /-- The extractor recognised every constant it is responsible for (window length, default thresholds, level
     enumerations, inflammation cut-offs, validator defaults, both built-in signature tables).  A `none` here means
-    the source no longer has the shape the model assumes. -/
+    the source no longer has the shape the model assumes.  Last conjunct: both `matches` methods, evaluated on
+    discriminating pairs (capital sigma inside / at the end of a word, sharp s against SS, dotted capital I), compare
+    substring signatures by full case folding — the code-point-wise map the model's `Env.lower : Nat → Str` stands
+    for, which is what makes the embedding and case-change theorems hypothesis-free for substring signatures
+    (with `str.lower()`, as before the `fix:` commit dc1025f, they are false: see `corpus/C10/sigma_embedding.json`). -/
 theorem c10_consts_extracted :
     Operon.Gen.Gates.membraneWindowS.isSome ∧ Operon.Gen.Gates.membraneDefaultThreshold.isSome ∧
     Operon.Gen.Gates.membraneCritical = some critical ∧
@@ -564,7 +568,8 @@ theorem c10_consts_extracted :
     Operon.Gen.Gates.inflammationLevels =
       some [("NONE", lvlNone), ("LOW", lvlLow), ("MEDIUM", lvlMedium), ("HIGH", lvlHigh), ("ACUTE", lvlAcute)] ∧
     Operon.Gen.Gates.innateDefaultValidators.isSome ∧ Operon.Gen.Gates.jsonDefaults.isSome ∧
-    Operon.Gen.Gates.membraneBuiltins.isSome ∧ Operon.Gen.Gates.innateBuiltins.isSome := by
+    Operon.Gen.Gates.membraneBuiltins.isSome ∧ Operon.Gen.Gates.innateBuiltins.isSome ∧
+    Operon.Gen.Gates.substringFolding = some "casefold" := by
   decide
 
 /-- the rows of a response table are cumulative: levels ascending by one, every row's actions / escalation targets
@@ -712,7 +717,7 @@ theorem c10_translation_agrees_validators (env : Env) (c : Str) :
 /-! ## Non-vacuity: concrete states and inputs meeting the hypotheses -/
 
 /-- a test environment: ASCII-style lowering, a "regex" that looks for the digit 7, everything compiles -/
-private def env0 : Env := ⟨lowerStd, fun _ c => c.contains 55, fun _ => true, fun _ => .decodeError⟩
+private def env0 : Env := ⟨foldStd, fun _ c => c.contains 55, fun _ => true, fun _ => .decodeError⟩
 private def sJail : Sig := ⟨[106, 97, 105, 108], 3, false⟩      -- "jail", CRITICAL, substring
 private def sSeven : Sig := ⟨[55], 2, true⟩                       -- regex, DANGEROUS
 private def m0 : Membrane := Membrane.new [sJail, sSeven] 2 true (some 2) 60
@@ -727,6 +732,12 @@ example : ¬ scanLevel env0 m0.active [74, 65, 73, 76] < m0.threshold := by deci
 example : CaseVariant env0 [74, 65, 73, 76] [106, 65, 105, 76] := by unfold CaseVariant; decide
 example : (m0.filter env0 5 ([120, 120, 32] ++ [74, 65, 73, 76] ++ [33])).2.decision =
     ⟨false, 3, [sJail], [120, 120, 32, 74, 65, 73, 76, 33], .scan⟩ := by decide
+
+/-- the inputs of the repaired defect (dc1025f): with per-code-point folding "Σ" is matched inside "Σn" as well as
+    alone, and "STRASSE" is a case variant of "straße" -/
+example : (⟨[0x3A3], 3, false⟩ : Sig).matches env0 [0x3A3] = true ∧ (⟨[0x3A3], 3, false⟩ : Sig).matches env0 [0x3A3, 110] = true ∧
+    CaseVariant env0 [0x73, 0x74, 0x72, 0x61, 0xDF, 0x65] [0x53, 0x54, 0x52, 0x41, 0x53, 0x53, 0x45] := by
+  unfold CaseVariant; decide
 
 /-- `c10_membrane_replay_memory`: blocked by the scan, then the pattern list is emptied of matches by raising the
     threshold to a level nothing reaches (4) — the input is still rejected, now from memory -/
@@ -787,8 +798,8 @@ example :
 /-- `c10_validators_reject_exactly`: a parser outcome other than `.other`, a document of depth 2 against
     `max_depth` 1 (rejected) and 2 (accepted) -/
 example : depth (.node [.node [], .scalar]) = 2 ∧
-    (Validator.json 1 100).rejects ⟨lowerStd, fun _ _ => false, fun _ => true, fun _ => .parsed (.node [.node [], .scalar])⟩ [91] = true ∧
-    (Validator.json 2 100).rejects ⟨lowerStd, fun _ _ => false, fun _ => true, fun _ => .parsed (.node [.node [], .scalar])⟩ [91] = false := by
+    (Validator.json 1 100).rejects ⟨foldStd, fun _ _ => false, fun _ => true, fun _ => .parsed (.node [.node [], .scalar])⟩ [91] = true ∧
+    (Validator.json 2 100).rejects ⟨foldStd, fun _ _ => false, fun _ => true, fun _ => .parsed (.node [.node [], .scalar])⟩ [91] = false := by
   decide
 
 /-- `c10_rate_check_linearizable`, `c10_membrane_rate_window_concurrent`: limit 1, window 60, two threads.  Thread 0
@@ -821,7 +832,7 @@ private def im0 : Innate :=
 
 /-- `c10_innate_total`: the hypothesis holds for an environment whose parser raises RecursionError, and the
     check then *rejects* instead of raising -/
-example : (im0.check ⟨lowerStd, fun _ _ => false, fun _ => true, fun _ => .recursionError⟩ 0 [91, 91]).2
+example : (im0.check ⟨foldStd, fun _ _ => false, fun _ => true, fun _ => .recursionError⟩ 0 [91, 91]).2
     = .ok ⟨false, [], [.json 2 100], 1⟩ := by decide
 
 /-- … and an `on_inflammation` hook that raises: the exception is tagged as the hook's, the check is counted -/
@@ -830,7 +841,7 @@ example : ((im0.setHook (some fun _ _ => some "KeyError")).check env0 0 [106, 97
     ((im0.setHook (some fun _ _ => some "KeyError")).check env0 0 [106, 97, 105, 108]).1.inflLevel = 4 := by decide
 
 /-- `c10_innate_allowed_iff`: an allowed check exists (valid shallow JSON, no pattern) -/
-example : (im0.check ⟨lowerStd, fun _ _ => false, fun _ => true, fun _ => .parsed (.node [.scalar])⟩ 0 [91, 49, 93]).2
+example : (im0.check ⟨foldStd, fun _ _ => false, fun _ => true, fun _ => .parsed (.node [.scalar])⟩ 0 [91, 49, 93]).2
     = .ok ⟨true, [], [], 0⟩ := by decide
 
 /-- `c10_innate_blocked_stays_blocked` / `_case_and_embedding`: "jail" is signature-blocked -/
